@@ -163,7 +163,8 @@ CHECKS['C15'] = {
              'Equality of results with the native API over whole hook scripts is NOT decided (it follows from thinness only informally).'
              ' (e) CErr\'s field is a CString which throw_err replaces by whole assignment with CString::new(<the reported error>.to_string()), never through a mutable borrow.'
              ' For the value getters every source of the result must be the native call; the description store in throw_err cannot be skipped.'
-             ' The iteration entries advance with next() and never use the OPT-including walk.'),
+             ' The iteration entries advance with next() and never use the OPT-including walk.'
+             " The slice built over a caller buffer has, on its path, a constant length equal to the size of the array copied into it (the caller's capacity is only a lower bound)."),
     'note': 'Trusted: clang 14 AST, tables/fn_table_map.json, rustc MIR. Fixed-size array parameters are bounds-checked by Rust itself once their sizes match the header (checked).',
 }
 CHECKS['C14'] = {
@@ -199,7 +200,8 @@ CHECKS['C05'] = {
              'fixed parts 4/10/12/20 and name-walk start positions (second SOA name at the first one\'s wire end); (c) the additional section is walked with OPT included in every re-emitter; (d) the reference-offset test precedes the first append of each record and the end-of-packet boundary is translated; '
              '(e) copy_uncompressed_name keeps the position behind the first pointer exactly like the validator\'s walker. NOT decided: byte identity of the expanded names, idempotence, acceptance of the output (run-time relations).'
              ' (g) every section walk expands the owner name with copy_raw_name in the same loop iteration; no name_slice bytes are appended to the output.'
-             ' Every name re-emitted inside record data is followed by a data-length rewrite on every successful path; no append below the decompressor copies a whole wire name verbatim.'),
+             ' Every name re-emitted inside record data is followed by a data-length rewrite on every successful path; no append below the decompressor copies a whole wire name verbatim.'
+             ' (h) path-sensitively: every path of uncompress_rdata that finishes a record of a name-bearing type has handed all of its names (1, SOA 2) to the expansion, directly or through a helper.'),
     'note': 'Trusted: analysis/interp.py contracts, tables/policy.json, rustc MIR.',
 }
 CHECKS['C06'] = {
@@ -208,10 +210,11 @@ CHECKS['C06'] = {
     'design_ref': 'DESIGN.md section 4, C06',
     'text': ('Decides: (a) at SuffixDict::insert inside the worker the offset recorded equals the current output length: E4 derives len(out) - len0 = offset - offset0 in the loop and discharges base_offset + offset0 = len(out) at all three call sites; '
              '(b) compress_rdata: name-bearing set, data-length accounting (E4), fixed parts, OPT-including walk in compress(); (c) pointer bytes are (ref >> 8) | 0xc0, ref & 0xff of the dictionary result, an offset is stored / a hit returned only under offset < 16384 (exact constant, dominating test) and only for suffixes >= 3 bytes. '
-             'NOT decided: case-insensitive matching, that decompressing gives the input back, the 16-pointer budget of the output (D18), table wrap-around.'
+             'NOT decided: that decompressing gives the input back, table wrap-around.'
              ' (d) no copy from the input packet below compress() takes an open-ended range packet[a..] (records behind the copied one would be emitted twice).'
              ' (e) the comparison step of the suffix dictionary is ASCII case-insensitive equality for all 65536 byte pairs (E3).'
-             ' Every name re-emitted inside record data is followed by a data-length rewrite on every successful path.'),
+             ' Every name re-emitted inside record data is followed by a data-length rewrite on every successful path.'
+             " (f) the same for compress_rdata and the compressor. (g) every dictionary hit is conditioned on a per-entry hop count within the validator's pointer budget - violated on the pinned tree (known finding D18: nested suffixes give chains deeper than 16 and the output is refused)."),
     'note': 'SuffixDict::insert is opaque for the accounting. Trusted: analysis/interp.py contracts.',
 }
 CHECKS['C07'] = {
@@ -224,7 +227,8 @@ CHECKS['C07'] = {
              ' (e) typestate over the label walk of replace_raw: a rewritten name is returned only on paths where name.len() - source.len() was found equal to a label boundary of the name.'
              ' (f, E4) the bytes compared for a label are exactly the label_len bytes behind its length byte, aligned with the source (per-byte closure analysed for a generic index, or slices).'
              ' (g) every comparison between name and source is the standard eq_ignore_ascii_case or a closure that E3 shows to be ASCII case-insensitive equality for all 65536 byte pairs.'
-             ' (h) every offset / index range into the input packet in rename_response_section is computed from the input only; data lengths are rewritten on every successful path.'),
+             ' (h) every offset / index range into the input packet in rename_response_section is computed from the input only; data lengths are rewritten on every successful path.'
+             ' (i) every path of rename_response_section that finishes a record of a name-bearing type has compared all of its names with the source.'),
     'note': 'Helpers above the size threshold are havocked for the accounting. Trusted: analysis/interp.py contracts.',
 }
 CHECKS['C13'] = {
